@@ -29,6 +29,10 @@ pub fn handle(req: &Value) -> Value {
                 .collect();
             json!({"r":"ok","v":entries})
         }
+        "rule_files" => match libmathcat::verif::verif_rule_files() {
+            Ok(files) => json!({"r":"ok","v":files.into_iter().map(|(n, p)| json!([n, p])).collect::<Vec<Value>>()}),
+            Err(e) => json!({"r":"err","msg":e}),
+        },
         "numpat" => {
             let g = |k: &str| req.get(k).and_then(|v| v.as_str()).unwrap_or("").to_string();
             let r = libmathcat::verif::verif_number_patterns(&g("text"), &g("block"), &g("decimal"));
